@@ -1,18 +1,19 @@
 #!/bin/sh
-# tools/seeded.sh <id> "<checks to run>" ["<pytest args>"] : confirm a seeded change in /tmp/mut/<id> and run checks against it.
-# The agent's patch.diff is the source of truth; git stash is never used (the stash is shared between worktrees).
-ID=$1; WT=/tmp/mut/$ID; cd /verif
-mkdir -p seeded/$ID
-cp $WT/patch.diff seeded/$ID/patch.diff; cp $WT/demo.py seeded/$ID/demo.py; cp $WT/notes.md seeded/$ID/notes.md 2>/dev/null
-git -C $WT checkout -q -- onsager
-git -C $WT checkout -q --detach $(git -C /repo rev-parse HEAD)
+# tools/seeded.sh <id> "<checks to run>" ["<pytest args>"] : confirm the seeded change seeded/<id>/ in a scratch worktree of /repo HEAD
+# (created under /tmp and removed afterwards) and run checks against it. /repo itself is never modified; git stash is never used.
+ID=$1; WT=/tmp/seeded_wt/$ID; cd "$(dirname "$0")/.."; V=$(pwd)
+mkdir -p /tmp/seeded_wt
+git -C /repo worktree remove --force $WT 2>/dev/null
+git -C /repo worktree add -q --detach $WT HEAD || exit 2
+cp seeded/$ID/demo.py $WT/demo.py
 echo "== $ID patch: $(grep -c '^[+-][^+-]' seeded/$ID/patch.diff) changed lines in $(grep -c '^diff' seeded/$ID/patch.diff) file(s)"
-(cd $WT && PYTHONPATH=$WT timeout 1800 /venv/bin/python -W ignore demo.py >/tmp/mut/$ID.demo_without.log 2>&1; echo "demo WITHOUT change: exit $?")
-git -C $WT apply /verif/seeded/$ID/patch.diff || { echo "PATCH DOES NOT APPLY"; exit 1; }
-(cd $WT && PYTHONPATH=$WT timeout 1800 /venv/bin/python -W ignore demo.py >/tmp/mut/$ID.demo_with.log 2>&1; echo "demo WITH change: exit $?")
+(cd $WT && PYTHONPATH=$WT timeout 1800 /venv/bin/python -W ignore demo.py >/tmp/seeded_wt/$ID.demo_without.log 2>&1; echo "demo WITHOUT change: exit $?")
+git -C $WT apply $V/seeded/$ID/patch.diff || { echo "PATCH DOES NOT APPLY"; git -C /repo worktree remove --force $WT; exit 1; }
+(cd $WT && PYTHONPATH=$WT timeout 1800 /venv/bin/python -W ignore demo.py >/tmp/seeded_wt/$ID.demo_with.log 2>&1; echo "demo WITH change: exit $?")
 if [ -n "$3" ]; then (cd $WT && /venv/bin/python -m pytest -q -p no:cacheprovider --timeout=900 $3 2>&1 | tail -1); fi
 for c in $2; do
   out=$(VERIF_REPO=$WT ./check $c 2>&1); rc=$?
   echo "check $c vs seeded $ID: rc=$rc $(echo "$out" | grep 'tier=' | tail -1)"
   echo "$out" | grep "witness" | head -2 | cut -c1-220
 done
+git -C /repo worktree remove --force $WT
